@@ -239,6 +239,31 @@ def run(chk):
             ("dyn", tuple(ts)))
         chk.count("Dynamics.add")
 
+    # ---- (c2) MeanFieldDynamics.add: the same rule for every system and for the field ------------------
+    from oqupy.dynamics import MeanFieldDynamics
+    for i in range(60 if thorough else 20):
+        k, nsys = rng.randint(1, 8), rng.randint(1, 3)
+        ts = [rng.randint(-3, 6) for _ in range(k)]
+        mfd = MeanFieldDynamics()
+        for j, t in enumerate(ts):
+            mfd.add(float(t) / 4, [np.array([[j + 100 * q]], dtype=complex) for q in range(nsys)], complex(j, -j))
+        chk.search_cases += 1
+        got_t = [int(round(t * 4)) for t in mfd.times]
+        got_f = [int(round(f.real)) for f in mfd.fields]
+        ft, fv = mfd.field_expectations()
+        ok = got_t == sorted(ts) and all(ts[j] == t for t, j in zip(got_t, got_f)) and sorted(got_f) == list(range(k)) \
+            and all(abs(f.imag + f.real) < 1e-12 for f in mfd.fields) and list(ft) == list(mfd.times) and list(fv) == list(mfd.fields) \
+            and len(mfd) == k and len(mfd.system_dynamics) == nsys
+        for q, sd in enumerate(mfd.system_dynamics):
+            ok = ok and [int(round(t * 4)) for t in sd.times] == got_t and [int(round(s_[0, 0].real)) - 100 * q for s_ in sd.states] == got_f
+        if not ok:
+            chk.fail("meanfield-dynamics-unsorted", "MeanFieldDynamics.add: times not sorted, or a field / a system's state detached from its time, "
+                     "or field_expectations() not aligned with times", {"times": ts, "systems": nsys})
+        pairs = coq_list([f"({zlit(t)}, {j})" for j, t in enumerate(ts)])
+        add(f"let d := dyn_of Z Z Z.leb {pairs} in fst d ++ snd d", got_t + got_f, {"kind": "MeanFieldDynamics.add", "times": ts, "systems": nsys},
+            ("mfdyn", tuple(ts), nsys))
+        chk.count("MeanFieldDynamics.add")
+
     # ---- (d) tcut <-> dkmax, PtTebd.time ---------------------------------------------------
     for i in range(60 if thorough else 25):
         dts = rng.choice(DT_LITS)
